@@ -869,3 +869,20 @@ Proof.
     exists (a :: map AWait (auto_ids (rds s1))). rewrite exec_cons, Ea. reflexivity.
   - intros E. inversion E; subst. exists (map AWait (auto_ids (rds s))). reflexivity.
 Qed.
+
+(* race mode: the model's observation (no violation) satisfies the race clauses *)
+Definition race_wf (op : word) : bool := match op with [8; _; _] => true | _ => false end.
+
+Theorem race_trace_holds m ops : forallb race_wf ops = true ->
+  exists obs, run [m; 1] ops = Some obs /\ holds_b [m; 1] ops obs = true.
+Proof.
+  unfold run, holds_b, clauses. induction ops as [|op ops IH]; cbn [forallb race_go race_cl_go]; intros Hw.
+  - exists []. split; reflexivity.
+  - apply andb_true_iff in Hw as [Hop Hr]. destruct (IH Hr) as (obs & G & C).
+    assert (E : exists a b, op = [8; a; b]).
+    { destruct op as [|x l]; [discriminate|]. destruct x as [|p|p]; try discriminate Hop.
+      destruct p as [[[[p|p|]|[p|p|]|]|[[p|p|]|[p|p|]|]|]|[[[p|p|]|[p|p|]|]|[[p|p|]|[p|p|]|]|]|]; try discriminate Hop;
+        destruct l as [|a [|b [|c l]]]; try discriminate Hop; eauto. }
+    destruct E as (a & b & ->). cbn [race_obs]. rewrite G. exists ([0; 0; 0; 0] :: obs).
+    split; [reflexivity|]. cbn [race_cl_go race_cl app forallb snd]. cbn. exact C.
+Qed.
